@@ -1,6 +1,6 @@
 #!/bin/bash
-# usage: tools/run_seeded.sh [jobs] — every seeded breaking change must be reported (exit 1) by the quick check of its property;
+# usage: tools/run_seeded.sh [jobs] [seed] — every seeded breaking change must be reported (exit 1) by the quick check of its property;
 # every harmless refactoring must pass all checks it is run against.
-jobs=${1:-4}
+jobs=${1:-4}; export VERIF_SEED=${2:-0}
 cd /verif
 ls -d seeded/C* | xargs -P $jobs -I{} bash -c 'd={}; id=$(basename $d); p=${id%%-*}; r=$(tools/check_mutant.sh /verif/$d quick $p 2>&1 | tail -1 | cut -c1-150); echo "$id :: $r"'
